@@ -54,6 +54,7 @@ _TLAPS = {
     "EditLaws": " Unbounded (TLAPS, spec/tlaps/EditLaws.tla): an insertion moves nothing before it and shifts the rest by the argument's length; remove-what-was-inserted, reinsert-what-was-removed and truncate-after-push restore the sequence, for any length.",
     "SetAlgebraLaws": " Unbounded (TLAPS, spec/tlaps/SetAlgebraLaws.tla): with positions read as sets, a|b contains both operands, both contain a&b, contains is a partial order and equals x|y = x and x&y = y, for any length and alphabet.",
     "KmerLaws": " Unbounded (TLAPS, spec/tlaps/KmerLaws.tla): a push drops exactly one symbol from the other end, pushing the dropped symbol back restores the k-mer, rotation by one is a push and the two rotations undo each other, the canonical form is strand independent for any involution, for any K and alphabet.",
+    "WindowLaws": " Unbounded (TLAPS, spec/tlaps/WindowLaws.tla): the n-w+1 windows lie inside the sequence, symbol j of window i is symbol i+j, consecutive windows overlap in w-1 symbols and together spell the sequence; chunks are consecutive, disjoint and inside, for any length and width.",
     "TableFoldProof": " Unbounded (TLAPS, spec/tlaps/TableFoldProof.tla): the folded inverse map is a function of the forward map alone, for any sets of codons and amino acids.",
 }
 LEVEL_TEXT["C02"] += (" One listed known finding (known_findings.json D12: sequences that store an alternative bit pattern compare and hash by stored bits) "
